@@ -245,7 +245,8 @@ class World:
         if k == "delay":
             return time + self.num(expr["d"])
         if k == "done":
-            return self.tasks[expr["task"]].done
+            task = self.tasks.get(expr["task"])
+            return eternity if task is None else task.done
         if k == "instant":
             return instant
         if k == "eternity":
